@@ -58,12 +58,13 @@ def structural(tree, src):
                 l0, c0, l1, c1 = a
                 if (l0, c0) > (l1, c1):
                     problems.append(f"{cls.__name__} span start>end {a}")
-                if l0 < 1 or c0 < 0 or l1 > nlines + 1:
+                # inside the text: both ends on lines that exist, columns within the line's content (terminator excluded)
+                if l0 < 1 or c0 < 0 or l1 > nlines or l0 > nlines:
                     problems.append(f"{cls.__name__} span outside text {a} nlines={nlines}")
                 else:
-                    if l0 <= nlines and c0 > len(lines[l0 - 1]):
+                    if c0 > len(lines[l0 - 1].rstrip("\r\n")):
                         problems.append(f"{cls.__name__} start col beyond line {a}")
-                    if l1 <= nlines and c1 > len(lines[l1 - 1]) + 1:
+                    if c1 > len(lines[l1 - 1].rstrip("\r\n")):
                         problems.append(f"{cls.__name__} end col beyond line {a}")
         for (cn, fn) in STORE_FIELDS:
             if cls.__name__ == cn and hasattr(node, fn):
